@@ -50,7 +50,7 @@ func refManageEffect(op int, p mSnap, now time.Time) mSnap {
 
 var mIDMenu = []string{"m0", "m1", "m2", " m0 ", "", "nope"}
 
-// verif:harness props=C14,C02 tier=quick native=yes weight=25 shards=4 tshards=12
+// verif:harness props=C14,C02 tier=quick native=yes weight=25
 // verif:bounds N=2 messages (thorough 3) in any state; id list of 2 (thorough 3) entries drawn with repetition from {each id, a blank-padded id, empty, absent id}; cancel/requeue/resume by id, DLQ requeue, DLQ delete; follow-up ack with the voided lease id
 func VerifC14ManageIDs() {
 	n, k := 2, 2
@@ -134,13 +134,13 @@ func clampLimit(l int) int {
 	return l
 }
 
-// verif:harness props=C14 tprops=C02 tier=quick native=yes weight=60 shards=6 tshards=14
+// verif:harness props=C14 tprops=C02 tier=quick native=yes weight=60
 // verif:bounds N=2 messages (thorough 3), any states, symbolic route r0|r1 and target t0|t1, symbolic received_at; filter: no route / route / route+target criterion, state criterion from {none, queued, dead, canceled} (thorough: all six), limit from {0,1} (thorough {0,1,1001} and preview_only on/off); cancel/requeue/resume by filter
 func VerifC14FilterCriteria() {
 	manageFilterCore(true)
 }
 
-// verif:harness props=C14 tier=quick native=yes weight=30 shards=4 tshards=10
+// verif:harness props=C14 tier=quick native=yes weight=30
 // verif:bounds N=2 messages (thorough 3), any states, symbolic received_at incl. ties; filter: before cursor absent/arbitrary, limit from {0,1,1001} (thorough adds -1,2), preview_only on/off; newest-first selection with id tie-break
 func VerifC14FilterOrder() {
 	manageFilterCore(false)
@@ -254,7 +254,7 @@ func manageFilterCore(criteria bool) {
 	vrt.Observe("matched", matched)
 }
 
-// verif:harness props=C02 tier=quick native=yes weight=40 shards=6 tshards=12
+// verif:harness props=C02 tier=quick native=yes weight=40
 // verif:bounds N=2 messages (thorough 3) in any state with arbitrary timestamps; retention max_age, delivered max_age, dlq max_age each off or an arbitrary positive duration, dlq max_depth in {0,1} (thorough {0,1,2}), arbitrary positive prune interval, last prune zero or arbitrary; pruning triggered through Stats and Dequeue (thorough: also ListMessages, ListDead)
 func VerifC02Prune() {
 	n := 2
